@@ -693,6 +693,25 @@ func colliderSDFStage(r *ev.Run, n int) {
 				return
 			}
 		}
+		// the same collider seen through a similarity (shrunk, enlarged, moved): distances scale with it, so the field
+		// at the image of q is the factor times the field at q
+		for _, sc := range []float64{0.5, 3} {
+			off := p3(0.7, -1.3, 0.4)
+			tr := model3d.JoinedTransform{&model3d.Scale{Scale: sc}, &model3d.Translate{Offset: off}}
+			tsdf := model3d.ColliderToSDF(model3d.TransformCollider(tr, model3d.MeshToCollider(m)), 0)
+			for qi, q := range qs {
+				w := want(q)
+				if qi%4 != 0 || math.Abs(w) < 1e-6*(1+ext) {
+					continue
+				}
+				r.Eval(1)
+				tq := q.Scale(sc).Add(off)
+				if got := tsdf.SDF(tq); !(math.Abs(got-sc*w) <= 1e-6*sc*(1+math.Abs(w)+ext)) {
+					r.Violation("ColliderToSDF/transformed", fmt.Sprintf("mesh collider of %s scaled by %g and moved, at %v: SDF=%.10g, %g x the exact distance is %.10g", ms[mi].name, sc, tq, got, sc, sc*w), sdfCase{ms[mi].name, []float64{tq.X, tq.Y, tq.Z}, "ColliderToSDF"})
+					return
+				}
+			}
+		}
 	})
 	s2 := ref.Shapes2()
 	ev.Parallel(len(s2), 16, func(si int) {
